@@ -40,7 +40,11 @@ def run(ctx):
     for k, sql in enumerate(["SELECT z + a AS x FROM mem.t q", "SELECT a + z AS x FROM mem.t q", "SELECT DISTINCT z + a AS x FROM mem.t q"]):
         cases.append({"kind": "expr_null", "chain": ["strict call with NULL sibling"], "p": 2, "n": 4, "sql": sql, "mustfail": True})
     for i, c in enumerate(cases):
-        if c["kind"] == "source":
+        if c["kind"] == "deep":
+            # n = 20 000 rows (the 4 rows repeated), fault at row p; every row of t matches 10 rows of u, so that a join above the fault
+            # consumes its input more slowly than the source produces it and the join's input channel is full when the fault occurs
+            t = {"t": {"fields": FIELDS, "rows": ROWS, "repeat": c["n"] // len(ROWS), "fail_at": c["p"]}, "u": {"fields": FIELDS, "rows": UROWS, "repeat": 10}}
+        elif c["kind"] == "source":
             t = {"t": {"fields": FIELDS, "rows": ROWS, "fail_at": c["p"]}, "u": {"fields": FIELDS, "rows": UROWS}}
         else:
             rows = [list(r) for r in ROWS]
@@ -52,7 +56,7 @@ def run(ctx):
                 rows = [r + [{"t": "null"}] for r in rows]
             t = {"t": {"fields": fields, "rows": rows}, "u": {"fields": FIELDS, "rows": UROWS}}
         for opt in (True, False):
-            q.append({"id": "%d:%s" % (i, "o" if opt else "n"), "tables": t, "sql": c["sql"], "optimize": opt})
+            q.append({"id": "%d:%s" % (i, "o" if opt else "n"), "tables": t, "sql": c["sql"], "optimize": opt, "count_only": c["kind"] == "deep"})
     inp, out = ctx.scratch + "/c06_q.ndjson", ctx.scratch + "/c06_r.ndjson"
     ctx.write_ndjson(inp, q)
     ctx.driver("sql-run", ["-in", inp, "-out", out], timeout=3000)
@@ -71,7 +75,7 @@ def run(ctx):
             if x["stage"] not in ("run", "panic"):
                 swallowing = [op for op in c["chain"]]
                 ctx.violation({"site": "engine", "fault": c["kind"], "chain": "/".join(c["chain"]), "optimize": m == "o"}, {"sql": c["sql"], "fault_at_row": c["p"], "rows": c["n"]},
-                              expected="the query fails with an error", observed={"rows_returned": len(x["rows"])},
+                              expected="the query fails with an error", observed={"rows_returned": x.get("nrows", len(x["rows"]))},
                               note="%s fault at row %d of %d but the query ended without an error" % (c["kind"], c["p"], c["n"]))
     if rejected > 0.2 * 2 * len(cases):
         raise core.Machinery("too many chains rejected by the typechecker: %d of %d: %s" % (rejected, 2 * len(cases),
@@ -138,7 +142,8 @@ def run(ctx):
     ctx.cover(evaluations=nfail, distinct=nfail)
     ctx.notes["cli"] = {"runs": nfail}
     ctx.coverage["exhaustive"] = True
-    ctx.coverage["rule"] = ("engine: every chain of height <= MaxH over 11 operators + LIMIT 1/3 x fault position 1..5 of a 4-row source x optimiser on/off; "
+    ctx.coverage["rule"] = ("engine: every chain of height <= MaxH over 11 operators + LIMIT 1/3 x fault position 1..5 of a 4-row source x optimiser on/off, and 38 chains "
+                            "(every operator; joins below / above streaming operators and joins) over a 20 000-row source failing at rows 10 001, 10 002, 20 000; "
                             "CLI: 3 input-fault kinds x 4 positions x 7 query shapes x 2 output modes, plus failing expressions. distinct_nontrivial = runs in which "
                             "the fault must surface (MustFail)")
 
